@@ -3,6 +3,7 @@ package fragswarm
 import (
 	"context"
 	"encoding/binary"
+	"math"
 	"runtime"
 	"sync"
 	"time"
@@ -54,10 +55,10 @@ func newSwarm[A p2p.Addr](x p2p.Swarm[A], mtu int) *swarm[A] {
 }
 
 func (s *swarm[A]) Tell(ctx context.Context, addr A, data p2p.IOVec) error {
-	if p2p.VecSize(data) > s.mtu {
+	underMTU := s.Swarm.MTU() - Overhead
+	if p2p.VecSize(data) > maxSize(s.mtu, underMTU) {
 		return p2p.ErrMTUExceeded
 	}
-	underMTU := s.Swarm.MTU() - Overhead
 	s.mu.Lock()
 	id := s.msgIDs[keyForAddr(addr)]
 	s.msgIDs[keyForAddr(addr)]++
@@ -154,7 +155,16 @@ func (s *swarm[A]) handleTell(ctx context.Context, x p2p.Message[A]) error {
 }
 
 func (s *swarm[A]) MTU() int {
-	return s.mtu
+	return maxSize(s.mtu, s.Swarm.MTU()-Overhead)
+}
+
+// maxSize returns the size of the largest message which can be sent with at most underMTU bytes of
+// every fragment available for data: the part count has to fit into the 8 bit field of the header.
+func maxSize(mtu, underMTU int) int {
+	if underMTU < 1 {
+		return -1
+	}
+	return min(mtu, math.MaxUint8*underMTU)
 }
 
 func (s *swarm[A]) Close() error {
